@@ -171,8 +171,10 @@ Lemma transition_synced cx s ip r ctl al aof res :
                  ((ctl <> CFin /\ rxv_eq s3 s) \/ (ctl = CFin /\ rxv_fin s3 s))
   | Ret t s3 rep =>
       (same_or_acked s3 s rep) \/
-      (rxv_eq s3 s /\ rep = None /\
-       (s_state s3 = Closed \/ (s_state s3 = Listen /\ s_state s = SynReceived)))
+      (rxv_eq s3 s /\ rep = None /\ s_state s3 = Closed) \/
+      (* RST in SYN-RECEIVED of a listener: back to a pristine LISTEN *)
+      (s3 = tcp_set_state (upd_listen_endpoint (tcp_reset s) (s_listen_endpoint s)) Listen /\
+       rep = None /\ s_state s = SynReceived)
   end.
 Proof.
   intros Hsy H. unfold tcp_process_transition in H.
@@ -183,9 +185,57 @@ Proof.
   all: try (left; split; [discriminate | unfold rxv_eq; rproj; repeat split; reflexivity]).
   all: try (right; split; [reflexivity | unfold rxv_fin; rproj; repeat split; reflexivity]).
   all: try (left; split; [rproj; congruence|]; split; [left; apply rxv_eq_refl | exact I]).
-  all: try (right; split; [unfold rxv_eq; rproj; repeat split; reflexivity|]; split; [reflexivity|];
-            rproj; first [left; reflexivity | right; split; reflexivity]).
+  all: try (right; left; split; [unfold rxv_eq; rproj; repeat split; reflexivity|]; split; reflexivity).
+  all: try (right; right; split; [reflexivity|]; split; reflexivity).
   all: try (left; eapply challenge_same_or_acked; [apply frame_refl | eassumption]).
+Qed.
+
+
+(* ---------------------------------------------------------------------------------------- *)
+(* reset                                                                                     *)
+(* ---------------------------------------------------------------------------------------- *)
+
+Lemma win_shift_nonneg c : 0 <= tcp_win_shift_for c.
+Proof. unfold tcp_win_shift_for, sat_sub. lia. Qed.
+
+Lemma reset_unsynced s :
+  rb_wf (s_rx_buffer s) -> rb_cap (s_rx_buffer s) <= p30 -> rx_unsynced (tcp_reset s).
+Proof.
+  intros Hwf Hcap. unfold rx_unsynced, misc_ok, lwb, tcp_reset. rproj.
+  pose proof (rb_clear_wf _ Hwf) as Hwf'. pose proof Hwf as (Hl & _).
+  split; [exact Hwf'|]. cbn [rb_clear rb_cap rb_len]. split; [exact Hcap|].
+  split; [reflexivity|]. split; [reflexivity|]. split; [reflexivity|].
+  split; [|exact I]. split; [lia|]. split; [apply win_shift_nonneg|].
+  unfold shl. lia.
+Qed.
+
+Lemma reset_rx_store s : rb_store (s_rx_buffer (tcp_reset s)) = rb_store (s_rx_buffer s).
+Proof. unfold tcp_reset. rproj. reflexivity. Qed.
+
+Lemma unsynced_state_change s s' :
+  rxv_eq s' s -> match s_state s' with Closed | Listen | SynSent => True | _ => False end ->
+  rx_unsynced s -> rx_unsynced s'.
+Proof.
+  intros (E1 & E2 & E3 & E4 & E5 & E6 & E7) Hst (H1 & H2 & H3 & H4 & H5 & H6 & _).
+  unfold rx_unsynced, misc_ok, lwb in *. rewrite E1, E2, E3, E6, E7.
+  split; [exact H1|]. split; [exact H2|]. split; [exact H3|]. split; [exact H4|].
+  split; [exact H5|]. split; [exact H6 | exact Hst].
+Qed.
+
+(* the pristine LISTEN reached by an RST in SYN-RECEIVED *)
+Lemma relisten_unsynced s ep :
+  rb_wf (s_rx_buffer s) -> rb_cap (s_rx_buffer s) <= p30 ->
+  rx_unsynced (tcp_set_state (upd_listen_endpoint (tcp_reset s) ep) Listen) /\
+  rb_store (s_rx_buffer (tcp_set_state (upd_listen_endpoint (tcp_reset s) ep) Listen))
+  = rb_store (s_rx_buffer s) /\
+  s_state (tcp_set_state (upd_listen_endpoint (tcp_reset s) ep) Listen) = Listen.
+Proof.
+  intros Hwf Hcap. pose proof (reset_unsynced s Hwf Hcap) as Hr. pose proof (reset_rx_store s) as Hs.
+  revert Hr Hs. generalize (tcp_reset s). intros s0 Hr Hs. split.
+  - apply (unsynced_state_change s0); [| |exact Hr].
+    + unfold rxv_eq. rproj. repeat split; reflexivity.
+    + rproj. exact I.
+  - split; [rproj; exact Hs | reflexivity].
 Qed.
 
 (* ---------------------------------------------------------------------------------------- *)
@@ -236,6 +286,7 @@ Section Proc.
       s_rx_fin_received s' = s_rx_fin_received s /\ s_remote_seq_no s' = s_remote_seq_no s /\
       s_remote_win_shift s' = s_remote_win_shift s /\
       rb_cap (s_rx_buffer s') = rb_cap (s_rx_buffer s) /\
+      rb_read_at (s_rx_buffer s') = rb_read_at (s_rx_buffer s) /\
       buf_inv S F have' c (s_rx_buffer s') (s_assembler s') /\
       rb_len (s_rx_buffer s) <= rb_len (s_rx_buffer s') /\
       reply_ok s' rep /\
@@ -279,7 +330,7 @@ Section Proc.
     destruct (rb_write_unallocated (s_rx_buffer s) off payload) as (rx1, n) eqn:Hw.
     destruct (payload_buf_inv S F have have' c (s_rx_buffer s) (s_assembler s) off payload a' contig rx1 n
                 Hb Hmono Hoff ltac:(lia) ltac:(lia) Hpay (HFpay ltac:(lia)) Hat Hw)
-      as (Hn & Hcontig & rx2 & He & Hb' & Hl2 & Hc2 & Hfront & Hpark & Hexact & Hfin & Hcells).
+      as (Hn & Hcontig & rx2 & He & Hb' & Hl2 & (Hc2 & Hra2) & Hfront & Hpark & Hexact & Hfin & Hcells).
     subst n. rewrite Z.eqb_refl in Hres. cbn [negb] in Hres.
     rewrite He in Hres. cbn [obind] in Hres.
     (* the delayed-ACK bookkeeping does not touch the view *)
@@ -302,7 +353,7 @@ Section Proc.
       destruct Ha as (A1 & A2 & A3 & A4 & A5 & A6 & A7).
       exists s3, (Some p), (tg + 10000). split; [reflexivity|].
       split; [congruence|]. split; [congruence|]. split; [congruence|]. split; [congruence|].
-      rewrite A2, A1, E2, E1. split; [exact Hc2|]. split; [exact Hb'|]. split; [lia|].
+      rewrite A2, A1, E2, E1. split; [exact Hc2|]. split; [exact Hra2|]. split; [exact Hb'|]. split; [lia|].
       split.
       { unfold reply_ok. right. split; [exact Hp2|]. rewrite Hws3. split; [exact Hp1|].
         rewrite A6. exact Hp3. }
@@ -320,7 +371,7 @@ Section Proc.
       assert (Ha'e : a' = []) by (destruct a'; [reflexivity | discriminate]).
       exists s2, None, tg. split; [reflexivity|].
       split; [congruence|]. split; [congruence|]. split; [congruence|]. split; [congruence|].
-      rewrite E2, E1. split; [exact Hc2|]. split; [exact Hb'|]. split; [lia|]. split; [exact I|].
+      rewrite E2, E1. split; [exact Hc2|]. split; [exact Hra2|]. split; [exact Hb'|]. split; [lia|]. split; [exact I|].
       split.
       + left. split; [congruence|]. split; [congruence|]. split; [reflexivity|].
         destruct (Z.eq_dec off 0) as [Hz|Hnz].
